@@ -89,7 +89,8 @@ def trace_check(ctx, name, cases):
 class LogView:
     """per-event accounting of what is written / synced / present, from the log alone"""
 
-    def __init__(self, log):
+    def __init__(self, log, fault_free=False):
+        self.fault_free = fault_free
         self.ev = [e.strip() for e in log.split(" ; ")]
         self.written, self.synced, self.present = {}, {}, []
         self.end = 0                      # journal end offset as far as the caller has journalled
@@ -105,6 +106,10 @@ class LogView:
         self.unlinks = []
         self.dropped_at = None
         self.unlocked_at = None
+        self.refused_cbs = set()
+        self.purges = []                  # accepted purges: (upto log id, journal offset just behind the purge record)
+        self.closing_last = {}            # chunk id -> last log id recorded when it was closed (from stat results)
+        self.live = None                  # liveness of C08: [upto, flushed?, idle after that flush?] while no write is accepted
         self.walk()
 
     def walk(self):
@@ -143,14 +148,32 @@ class LogView:
                     if fid in self.present:
                         self.present.remove(fid)
                     self.unlinks.append((i, fid))
+                elif k == "idle":
+                    if self.live and self.live[1]:
+                        self.live[2] = True
                 elif k == "call":
                     self.last_call = t[2:]
+                    if t[2] == "F" and self.live:
+                        self.live[1] = True
                     if t[2] == "F":
                         if t[3] == "1":
                             self.flush_U[self.next_cb] = self.end
                             self.flush_nwrites[self.next_cb] = self.nwrites
                             self.next_cb += 1
                 elif k == "ret":
+                    if self.last_call and self.last_call[0] == "F" and self.last_call[1] == "1" and t[2] != "unit":
+                        self.refused_cbs.add(self.next_cb - 1)      # the flush call itself failed: no callback owed
+                    if self.last_call and t[2] == "stat":
+                        self.see_stat(i, e)
+                    if self.last_call and self.last_call[0] in "VATPCU" and t[2] == "ok":
+                        self.live = None
+                    if self.last_call and self.last_call[0] == "P" and t[2] == "ok":
+                        up = (int(self.last_call[1]), int(self.last_call[2]))
+                        self.purges.append((up, int(t[3]) + int(t[4])))
+                        # a purge at or below the current purge point writes no record and
+                        # requests nothing (its result is the previous record's segment)
+                        if int(t[3]) + int(t[4]) > self.end:
+                            self.live = [up, False, False]
                     if self.last_call and self.last_call[0] in "VATPCU" and t[2] == "ok":
                         off, ln = int(t[3]), int(t[4])
                         self.end = max(self.end, off + ln)
@@ -203,6 +226,40 @@ class LogView:
     def check_unlink(self, i, fid):
         if self.present and fid != min(self.present):
             self.problems.append(("C08", "chunk file %d deleted while the older file %d is still present" % (fid, min(self.present)), i))
+        # the purge that made it obsolete must be accepted and durably recorded in the files that remain
+        rest = LogViewRest(self, fid)
+        durable = [up for (up, endoff) in self.purges if rest.durable_upto(endoff) is None]
+        if not durable:
+            self.problems.append(("C08", "chunk file %d deleted although no accepted purge is durably recorded (accepted purges: %s)" % (fid, self.purges[-3:]), i))
+        elif fid in self.closing_last and self.closing_last[fid] is not None and self.closing_last[fid] > max(durable):
+            self.problems.append(("C08", "chunk file %d deleted although it was closed with last log id %s, above every durably recorded purge point (%s)" % (fid, self.closing_last[fid], max(durable)), i))
+
+    def see_stat(self, i, e):
+        import re
+        m = re.search(r"closed=\[(.*?)\] open=", e)
+        if not m:
+            return
+        chunks = []
+        for cm in re.finditer(r"(\d+),\d+,\d+,\d+,\d+,\{([^}]*)\}", m.group(1)):
+            st = cm.group(2).split()
+            last = None if st[1] == "-" else tuple(int(x) for x in st[1].split(":"))
+            chunks.append((int(cm.group(1)), last))
+            self.closing_last[int(cm.group(1))] = last
+        if self.live and self.live[2] and self.fault_free:
+            up = self.live[0]
+            # judged on the oldest closed chunk only: files go oldest-first, so a younger chunk
+            # behind one that must stay is rightly kept
+            for cid, last in chunks[:1]:
+                if last is None or last <= up:
+                    self.problems.append(("C08", "the purge up to %s was flushed and the worker is idle, but closed chunk %d (closing last log id %s) holding nothing above the purge point is still there" % (up, cid, last), i))
+
+
+class LogViewRest:
+    """the files that remain once `gone` is deleted (for durable_upto)"""
+    def __init__(self, v, gone):
+        self.present = [f for f in v.present if f != gone]
+        self.synced = v.synced
+    durable_upto = LogView.durable_upto
 
 
 def analyse(ctx, prop, cases, logs, fault_free):
@@ -213,7 +270,7 @@ def analyse(ctx, prop, cases, logs, fault_free):
             ctx.fail("corr", "the harness could not complete the trace: " + l, dict(check="trace", case=c[:3000]))
             views.append(None)
             continue
-        v = LogView(l)
+        v = LogView(l, fault_free=("fault " not in c))
         views.append(v)
         for (p, text, i) in v.problems:
             if p == prop:
@@ -225,14 +282,17 @@ def analyse(ctx, prop, cases, logs, fault_free):
 
 # ------------------------------------------------------------------ schedule generation
 def gen_schedule(rnd, nops, cfg, faults=0, snaps=False, small_cache=False, reads=False, max_batch=3, purge_heavy=False):
-    ops, st, sim = gen.gen_history(rnd, nops, p_reject=0.05, reads=reads, max_batch=max_batch,
-                                   flush_every=rnd.choice([0.2, 0.35, 0.5]))
+    ops, st, sim = gen.gen_history(rnd, nops, p_reject=0.08, reads=reads, max_batch=max_batch,
+                                   flush_every=rnd.choice([0.2, 0.35, 0.5]), index_limit_rejects=True)
     items = []
     hold = rnd.random() < 0.5          # hold the worker: requests pile up and are batched
     for o in ops:
         items.append(o)
         r = rnd.random()
-        if o.startswith("F"):
+        if o.startswith("P") and faults == 0 and rnd.random() < 0.4:
+            # purge, flush, worker idle, look: the liveness clause of C08 is judged here
+            items += ["F 1", "wi", "G"]
+        elif o.startswith("F"):
             if hold and rnd.random() < 0.6:
                 pass                    # keep the worker where it is: more requests for the next batch
             else:
@@ -270,6 +330,14 @@ def run_C04(ctx):
         ctx.count("traces_with_faults" if faults else "traces_fault_free")
         cases.append(line)
         ff.append(faults == 0)
+    # the bounded request channel (1024) filled while the worker is held: the caller blocks
+    # inside flush with data pending, the worker is released event by event
+    for j in range(ctx.scale(1, 4)):
+        recs = rnd.choice([100000, 100000, 500]) if j else 100000
+        m = rnd.randint(18, 40)
+        cases.append("TRACE 100000 1073741824 %d 1073741824 1 64 | A 1 0 x61 ; F 1 ; w 1 ; burst %d %d ; wi ; A 1 %d x62 ; F 1 ; wi ; G ; snap"
+                     % (recs, 1024 + m - rnd.randint(2, 8), m, m + 1))
+        ctx.count("channel_full_bursts")
     cases = p_seq.corpus("C04") + cases
     ff = [("fault " not in c) for c in cases]
     logs, rep = trace_check(ctx, "c04", cases)
@@ -279,7 +347,7 @@ def run_C04(ctx):
         if v is None or not f:
             continue
         got = [cb for cb, ok in v.acks]
-        if got != list(range(v.next_cb)) or not all(ok for _, ok in v.acks):
+        if got != [cb for cb in range(v.next_cb) if cb not in v.refused_cbs] or not all(ok for _, ok in v.acks):
             bad += 1
             ctx.fail("oracle", "C04 oracle: without failures every flush callback must fire exactly once with Ok: requested %d, fired %s" % (v.next_cb, v.acks[:20]),
                      dict(kind="trace", case=c[:4000]))
@@ -295,7 +363,8 @@ def run_C04(ctx):
 
 
 # ------------------------------------------------------------------ crash images from snapshots
-IMG_AFTER = "G ; R 0 100000 ; D ; A ; V 4000000000 1 ; F 1 ; I ; X 100000 1073741824 4 1073741824 1 64 ; G ; R 0 100000"
+# fields: 0 opened, 1 stat, 2 read, 3 iteration, 4 drain, 5 read after drain, 6 append, 7 vote, 8 flush, 9 idle, 10 restart, -2 stat, -1 read
+IMG_AFTER = "G ; R 0 100000 ; D ; E ; R 0 100000 ; A ; V 4000000000 1 ; F 1 ; I ; X 100000 1073741824 4 1073741824 1 64 ; G ; R 0 100000"
 
 
 def writes_of_case(case, log):
@@ -435,8 +504,11 @@ def run_crash(ctx, prop):
         elif f[0] == "opened":
             nopen += 1
             if prop == "C05":
-                if not (f[-2].startswith("stat") and f[-1].startswith("read")) or any(x.startswith("err") for x in f[3:6]):
+                if not (f[-2].startswith("stat") and f[-1].startswith("read")) or any(x.startswith("err") for x in f[3:9]):
                     why = "the recovered store does not stay usable (writes, flush, second restart): " + " ; ".join(f[3:])[:300]
+                elif f[5] != f[2] and " T " not in cases[m["trace"]]:
+                    # (histories with a truncation are left out: finding F2 of C07)
+                    why = "the recovered store does not stay usable: after draining the evictable cache the recovered entries read differently: before `%s` after `%s`" % (f[2][:300], f[5][:300])
             else:
                 if has_partial[m["trace"]]:
                     continue
@@ -449,6 +521,8 @@ def run_crash(ctx, prop):
                     why = "recovery forgot acknowledged writes: recovered the prefix of length %d, %d writes were acknowledged" % (max(ks), m["acked"])
                 elif min(ks) > m["issued"]:
                     why = "recovered more writes than were issued"
+                elif f[5] != f[2] and " T " not in cases[m["trace"]]:
+                    why = "the recovered entries do not stay what they are: after draining the evictable cache they read `%s`, before `%s`" % (f[5][:300], f[2][:300])
         if why:
             bad += 1
             rp = dict(kind="image", case=c[:8000], from_trace=cases[m["trace"]][:3000], mutation={k: v for k, v in m.items()}, observed=a[:800])
